@@ -5,6 +5,10 @@
      S <shape> <N> <k> (<agg> <param>)*k # <cells of all rows> # <results batch 1> # ...
      M <N> <k> (<agg> <param> <arg>)*k # <cells of all rows> # <results batch 1> # ...
        a select list whose calls have DIFFERENT arguments; <arg> = <x|dx>:<id|add|sub|mul>:<num/den>:<i|d>:<cl|lc>
+     A <N> <k> (<agg> <param> <arg>)*k # <cells of all rows> # <row 1> # ...
+       SELECT changed_col(true, <call>) ... : the rows delivered for the windows whose values changed ("-" = item absent)
+     H <N> <k> (<agg> <param> <arg>)*k # <h> (<agg> <param> <arg>)*h # <pred> # <cells of all rows> # <batch 1> # ...
+       a query with HAVING over selected and hidden calls; <batch b> = E when nothing was delivered
    Verdicts: "chk <clause>" = the implementation's result is not the documented definition on this input;
              "diff ..."     = the implementation's result is not the model's. *)
 open Model
@@ -116,6 +120,194 @@ let rec chunks n l =
 
 let rec split_at n l = if n = 0 then ([], l) else match l with x :: r -> let (a, b) = split_at (n - 1) r in (x :: a, b) | [] -> failwith "short"
 
+(* <arg> of families M and H: <x|dx>:<id|add|sub|mul>:<num/den>:<i|d>:<cl|lc> *)
+let shape_of (t : string) : shape =
+  (match String.split_on_char ':' t with
+   | [col; op; lit; form; _order] ->
+       let nested = (match col with "x" -> false | "dx" -> true | _ -> failwith "bad column") in
+       if form <> "i" && form <> "d" then failwith "bad literal form" else
+       (match op with
+        | "id" -> if nested then ShPath else ShId
+        | "add" -> ShAff (OAdd, q_of_frac lit)
+        | "sub" -> ShAff (OSub, q_of_frac lit)
+        | "mul" -> ShAff (OMul, q_of_frac lit)
+        | _ -> failwith "bad operator")
+   | _ -> failwith ("bad argument token " ^ t))
+
+(* c calls (<agg> <param> <arg>) from the front of a token list *)
+let rec flds3 c toks = if c = 0 then ([], toks) else
+    (match toks with
+     | name :: param :: arg :: r ->
+         let (f, star) = agg_of name param in
+         let sh = shape_of arg in
+         let (l, rest) = flds3 (c - 1) r in
+         ((name, f, (match star with Some s -> s | None -> sql_mode sh), sh) :: l, rest)
+     | _ -> failwith "bad field spec")
+
+(* HAVING condition in prefix form: and P Q | or P Q | cmp <gt|ge|lt|le> <field> <num/den> *)
+let rec take_pred (toks : string list) : hpred * string list =
+  match toks with
+  | "and" :: r -> let (p, r1) = take_pred r in let (q, r2) = take_pred r1 in (HAnd (p, q), r2)
+  | "or" :: r -> let (p, r1) = take_pred r in let (q, r2) = take_pred r1 in (HOr (p, q), r2)
+  | "cmp" :: o :: j :: k :: r ->
+      let o = (match o with "gt" -> HGt | "ge" -> HGe | "lt" -> HLt | "le" -> HLe | _ -> failwith "bad comparison") in
+      (HCmp (o, nat_of_int (int_of_string j), q_of_frac k), r)
+  | _ -> failwith "bad HAVING condition"
+
+let rec nth_obs toks i = let (o, r) = take_obs toks in if i = 0 then o else nth_obs r (i - 1)
+
+let rec firstn_l n l = if n = 0 then [] else match l with x :: r -> x :: firstn_l (n - 1) r | [] -> []
+let rec range a b = if a > b then [] else a :: range (a + 1) b
+
+(* family H: consecutive batches of a query with HAVING.  The model (hav_run) says which batches come out and with
+   which values; the definition says the same from the rows of the batch alone (hholds over spec_batch of every field);
+   the implementation must deliver exactly those batches, every value the definition over the batch's OWN rows.
+   A value (or a delivery decision) that is instead explained by the rows of the batch TOGETHER WITH those of the
+   batches before it that delivered nothing is reported as batch_state_leak. *)
+let handle_having (n : int) (k : int) (hdr : string list) (hid : string list) (pred : string list)
+    (cells : string list) (rs : string list list) : string =
+  let (vis, rest) = flds3 k hdr in
+  if rest <> [] then "bad line" else
+  let (hidden, rest) = (match hid with h :: r -> flds3 (int_of_string h) r | [] -> failwith "bad hidden section") in
+  if rest <> [] then "bad line" else
+  let (p, rest) = take_pred pred in
+  if rest <> [] then "bad line" else
+  let fields = vis @ hidden in
+  let cells = List.map cell_of_tok cells in
+  let batches = chunks n cells in
+  if List.length rs <> List.length batches then "chk batch_count" else
+  let sfields = List.map (fun (_, f, m, sh) -> ((f, m), sh)) fields in
+  let mds = hav_run sfields (nat_of_int k) p (sel_init sfields) batches in
+  let spec_row bc = List.map (fun (_, f, m, sh) -> spec_batch f m (List.map (eval_arg sh) bc)) fields in
+  let delivered b = List.nth rs b <> ["E"] in
+  (* the rows of batches s..b, s ranging over the stretch of undelivered batches right before b *)
+  let leak_candidates b =
+    let rec back s acc = if s < 0 || delivered s then acc else back (s - 1) (s :: acc) in
+    List.rev (back (b - 1) []) in
+  let rows_from s b = List.concat (List.map (fun i -> List.nth batches i) (range s b)) in
+  let verdict = ref None in
+  let soft = ref None in
+  List.iteri (fun b bc ->
+      if !verdict = None then begin
+        let toks = List.nth rs b in
+        let md = List.nth mds b in
+        let sp_dec = hholds p (spec_row bc) in
+        let md_dec = (md <> None) in
+        if sp_dec <> md_dec then verdict := Some (Printf.sprintf "diff having_decision_model batch=%d" b)
+        else if delivered b <> sp_dec then begin
+          let why = List.find_opt (fun s -> hholds p (spec_row (rows_from s b)) = delivered b) (leak_candidates b) in
+          verdict := Some (match why with
+              | Some s -> Printf.sprintf "chk batch_state_leak batch=%d %s although HAVING over its own rows %s; it is the decision over the rows of batches %d..%d"
+                            b (if sp_dec then "not delivered" else "delivered") (if sp_dec then "holds" else "fails") s b
+              | None -> Printf.sprintf "chk %s batch=%d" (if sp_dec then "having_passing_batch_not_delivered" else "having_rejected_batch_delivered") b)
+        end
+        else if sp_dec then begin
+          let mrow = (match md with Some r -> r | None -> []) in
+          List.iteri (fun j (name, f, m, sh) ->
+              if !verdict = None && j < k then begin
+                let o = (match sh, Some (nth_obs toks j) with
+                    | ShAff _, Some (OVal v) -> Some (OVal (as_number v))
+                    | ShAff _, Some (OList l) -> Some (OList (List.map as_number l))
+                    | _, o -> o) in
+                let known = (match f, m with
+                    | AStdDev, _ -> Some "stddev_is_sample"
+                    | _, MExpr when keeps_null f -> Some "expr_null_not_skipped"
+                    | _ -> None) in
+                let sp = spec_batch f m (List.map (eval_arg sh) bc) in
+                match judge name f known o (Some sp) (List.nth mrow j) with
+                | Some v when v <> "chk stddev_is_sample" ->
+                    let f' = (match f with AStdDev -> AStdDevS | _ -> f) in
+                    let why = List.find_opt (fun s ->
+                        matches_opt (exact_agg f) o (spec_batch f' m (List.map (eval_arg sh) (rows_from s b)))) (leak_candidates b) in
+                    (match why with
+                     | Some s -> verdict := Some (Printf.sprintf "chk batch_state_leak field=%d batch=%d the value is the definition over the rows of batches %d..%d (%s)" j b s b v)
+                     | None -> verdict := Some (Printf.sprintf "%s field=%d batch=%d" v j b))
+                | Some v -> if !soft = None then soft := Some (Printf.sprintf "%s field=%d batch=%d" v j b)
+                | None -> ()
+              end) fields
+        end
+      end) batches;
+  (match !verdict, !soft with Some v, _ -> v | None, Some v -> v | None, None -> "ok nt")
+
+(* family A: a select list of changed_col(true, <aggregate call>) items only.  Per window the model (sel_run, proved
+   leak-free) gives the value of every call; a row comes out for window b iff some call's value differs from its
+   value for window b-1 (b = 0: always), holding exactly the changed calls (the suppression rule is the analytic
+   engine's - C14's subject - applied here to the model's values).  The delivered rows, in order of arrival, must be
+   those rows, every value the definition over the rows of ITS window.  The model is the code as found: a call with an
+   arithmetic argument is computed over the bare column (finding F59, verdict inline_agg_arg_dropped when the
+   implementation agrees with that model and not with the definition; never hides another violation of the case).  A value that is the definition over the rows
+   of several consecutive windows is reported as batch_state_leak. *)
+let res_same (a : res option) (b : res option) : bool =
+  match a, b with
+  | Some (RNum x), Some (RNum y) -> qeq_bool x y
+  | _ -> a = b
+
+let handle_suppressed (n : int) (k : int) (hdr : string list) (cells : string list) (rs : string list list) : string =
+  let (fields, rest) = flds3 k hdr in
+  if rest <> [] then "bad line" else
+  (* the column of call j (the arg token starts with x: or dx:) *)
+  let nested j = (let t = List.nth hdr (3 * j + 2) in String.length t > 2 && String.sub t 0 3 = "dx:") in
+  let cells = List.map cell_of_tok cells in
+  let batches = chunks n cells in
+  let nb = List.length batches in
+  (* the code as found (F59): the hidden aggregate of a call inside an analytic function reads the bare column *)
+  let asis = List.mapi (fun j (_, f, m, sh) -> inline_field_asis f (m = MStar) (nested j) sh) fields in
+  let mds = sel_run asis (sel_init asis) batches in
+  (* expected rows: (window, per call: Some model value if changed) *)
+  let expected =
+    List.concat (List.mapi (fun b row ->
+        let flags = List.mapi (fun j v -> b = 0 || not (res_same v (List.nth (List.nth mds (b - 1)) j))) row in
+        if List.exists (fun x -> x) flags then [ (b, List.map2 (fun fl v -> if fl then Some v else None) flags row) ] else []) mds) in
+  let rows = if rs = [ ["E"] ] then [] else rs in
+  let rows_from s e = List.concat (List.map (fun i -> List.nth batches i) (range s e)) in
+  let obs_at toks j =     (* j-th item of a delivered row: None = absent *)
+    let rec go toks i = (match toks with
+        | "-" :: r -> if i = 0 then None else go r (i - 1)
+        | _ -> let (o, r) = take_obs toks in if i = 0 then Some o else go r (i - 1)) in
+    go toks j in
+  (* is the value the aggregate (as the code feeds it) over the rows of windows s..e, s < e ? *)
+  let leak_of j o =
+    let ((f, m), sh) = List.nth asis j in
+    let found = ref None in
+    List.iter (fun s -> List.iter (fun e ->
+        if !found = None && matches_opt (exact_agg f) (Some o) (spec_batch f m (List.map (eval_arg sh) (rows_from s e)))
+        then found := Some (s, e)) (range (s + 1) (nb - 1))) (range 0 (nb - 2));
+    !found in
+  let verdict = ref None in
+  let soft = ref None in
+  List.iteri (fun r toks ->
+      if !verdict = None then begin
+        match List.nth_opt expected r with
+        | None -> verdict := Some (Printf.sprintf "chk suppressed_run_extra_row row=%d (%d rows expected)" r (List.length expected))
+        | Some (b, exp) ->
+            List.iteri (fun j (name, f, m, sh) ->
+                if !verdict = None then begin
+                  let o = (match obs_at toks j with Some o -> Some (match o with OVal v -> OVal (as_number v) | o -> o) | None -> None) in
+                  let bc = List.nth batches b in
+                  let sp = spec_batch f m (List.map (eval_arg sh) bc) in
+                  let known = (match sh with ShAff _ -> Some "inline_agg_arg_dropped" | _ -> None) in
+                  let bad = (match o, List.nth exp j with
+                      | None, None -> None
+                      | Some o, Some md -> judge name f known (Some o) (Some sp) md
+                      | Some _, None -> Some "chk suppressed_run_unchanged_item_present"
+                      | None, Some _ -> Some "chk suppressed_run_changed_item_absent") in
+                  match bad with
+                  | None -> ()
+                  | Some "chk inline_agg_arg_dropped" ->
+                      if !soft = None then soft := Some (Printf.sprintf "chk inline_agg_arg_dropped row=%d item=%d window=%d" r j b)
+                  | Some v ->
+                      (match (match o with Some o -> leak_of j o | None -> None) with
+                       | Some (s, e) -> verdict := Some (Printf.sprintf "chk batch_state_leak row=%d item=%d window=%d the value is the aggregate over the rows of windows %d..%d (%s)" r j b s e v)
+                       | None -> verdict := Some (Printf.sprintf "%s row=%d item=%d window=%d" v r j b))
+                end) fields
+      end) rows;
+  (match !verdict with
+   | Some v -> v
+   | None ->
+       if List.length rows < List.length expected
+       then Printf.sprintf "chk suppressed_run_missing_row (%d rows expected, %d delivered)" (List.length expected) (List.length rows)
+       else (match !soft with Some v -> v | None -> "ok nt"))
+
 (* fields: (name, agg, mode); batches: cells per batch (already evaluated); results: token sections *)
 let judge_batches (fields : (string * agg * mode) list) (batches : cell list list) (results : string list list) : string =
   if List.length results <> List.length batches then "chk batch_count" else
@@ -215,26 +407,7 @@ let handle (toks : string list) : string =
       (match split_hash rest with
        | hdr :: cells :: rs ->
            let k = int_of_string k and n = int_of_string n in
-           let shape_of (t : string) : shape =
-             (match String.split_on_char ':' t with
-              | [col; op; lit; form; _order] ->
-                  let nested = (match col with "x" -> false | "dx" -> true | _ -> failwith "bad column") in
-                  if form <> "i" && form <> "d" then failwith "bad literal form" else
-                  (match op with
-                   | "id" -> if nested then ShPath else ShId
-                   | "add" -> ShAff (OAdd, q_of_frac lit)
-                   | "sub" -> ShAff (OSub, q_of_frac lit)
-                   | "mul" -> ShAff (OMul, q_of_frac lit)
-                   | _ -> failwith "bad operator")
-              | _ -> failwith ("bad argument token " ^ t)) in
-           let rec flds c toks = if c = 0 then [] else
-               (match toks with
-                | name :: param :: arg :: r ->
-                    let (f, star) = agg_of name param in
-                    let sh = shape_of arg in
-                    (name, f, (match star with Some s -> s | None -> sql_mode sh), sh) :: flds (c - 1) r
-                | _ -> failwith "bad field spec") in
-           let fields = flds k hdr in
+           let (fields, _) = flds3 k hdr in
            let cells = List.map cell_of_tok cells in
            let batches = chunks n cells in
            if List.length rs <> List.length batches then "chk batch_count" else
@@ -277,6 +450,14 @@ let handle (toks : string list) : string =
                      | None -> ()
                    end) fields) batches;
            (match !verdict, !soft with Some v, _ -> v | None, Some v -> v | None, None -> "ok nt")
+       | _ -> "bad line")
+  | "H" :: n :: k :: rest ->
+      (match split_hash rest with
+       | hdr :: hid :: pred :: cells :: rs -> handle_having (int_of_string n) (int_of_string k) hdr hid pred cells rs
+       | _ -> "bad line")
+  | "A" :: n :: k :: rest ->
+      (match split_hash rest with
+       | hdr :: cells :: rs -> handle_suppressed (int_of_string n) (int_of_string k) hdr cells rs
        | _ -> "bad line")
   | _ -> "bad line"
 
